@@ -167,8 +167,25 @@ func (w *writer) Save(context.Context) (base.BlockMap, error) {
 	n := w.n
 	bm := base.NewDummyBlockMapWithSign(w.manifest, n.local.Address(), n.local.Privatekey())
 	e := blockEntry{manifest: w.manifest, bm: bm, ivp: w.ivp, avp: w.avp, round: w.proposal.Point().Round().Uint64(), prop: w.proposal.Fact().Hash()}
+	var expelled []base.Address
+	if x, ok := w.ivp.(base.HasExpels); ok {
+		for _, op := range x.Expels() {
+			expelled = append(expelled, op.ExpelFact().Node())
+		}
+	}
 	if !n.chain.appendAt(e, func() {
-		n.emit(Ev{"a": "Saved", "h": w.manifest.Height().Int64(), "blk": n.net.log.id("m", w.manifest.Hash().String())})
+		ev := Ev{"a": "Saved", "h": w.manifest.Height().Int64(), "blk": n.net.log.id("m", w.manifest.Hash().String())}
+		if len(expelled) > 0 {
+			n.net.noteExpelled(w.manifest.Height(), expelled)
+			ex := []string{}
+			for _, a := range expelled {
+				if t := n.net.indexOf(a); t >= 0 {
+					ex = append(ex, n.net.name(t))
+				}
+			}
+			ev["ex"] = ex
+		}
+		n.emit(ev)
 	}) {
 		n.emit(Ev{"a": "SaveConflict", "h": w.manifest.Height().Int64(), "blk": n.net.log.id("m", w.manifest.Hash().String())})
 		return nil, errors.Errorf("block of height %d can not be saved on a chain of height %d", w.manifest.Height(), n.chain.height())
